@@ -1,5 +1,8 @@
 import CotengraVerif.Lemmas.FlowNI
+import CotengraVerif.Lemmas.RngFlowSound
+import CotengraVerif.Lemmas.GatherLemmas
 import CotengraVerif.Generated.FactsC17
+import CotengraVerif.Generated.FactsC17Rng
 
 /-!
 # C17 — operations that take a seed are deterministic functions of their arguments
@@ -9,10 +12,15 @@ whenever it is called with the same arguments and the same integer seed, regardl
 of the process-global random generator, of what was called before, and of the interpreter's
 string-hash randomisation.
 
-**What is modelled** (`Model/Flow.lean`): an imperative semantics whose programs can read three
-sources -- the generator made from the seed (`get_rng(seed)`, cotengra/utils.py:710-729), the
-process-global generator (`get_rng(None)`, `random.*`, `np.random.*`) and the string-hash order
-(iteration order of a `set` of `str`).  Bodies are arbitrary: any deterministic store
+**What is modelled** (`Model/Flow.lean`): an imperative semantics whose programs can read four
+sources -- the generator made from the seed (`get_rng(seed)`, cotengra/utils.py:731-750), the
+process-global generator (`get_rng(None)`, `random.*`, `np.random.*`), the string-hash order
+(iteration order of a `set` of `str`) and the order in which the workers of an executor pool passed
+as `parallel=` finish (`as_completed`).  `Model/RngFlow.lean`: the intra-procedural data flow of
+the variables that carry the seed / a generator (which value reaches `get_rng(x)`, `f(seed=x)`,
+`x.randint()` on which path).  `Model/Gather.lean`: gathering pool results in submission order vs
+completion order, the stable sort and the restart rounds of `subtree_reconfigure_forest`.
+`GetRng` (in Model/Flow.lean): the branches of `get_rng`.  Bodies are arbitrary: any deterministic store
 transformer, draws, sequencing, branching, loops, calls (recursion included; fuel-bounded
 execution, equal fuel on both sides, and "out of fuel" is part of the compared outcome).
 
@@ -55,19 +63,28 @@ theorem seeded_apis_deterministic {σ : Type} (P : Prog σ) (hcov : Covers Facts
     OptLowEq (exec P fuel (.call e) e1) (exec P fuel (.call e) e2) :=
   noninterference P e (cleanAll_sound FactsC17.table P hcov _ seeded_apis_clean e he) fuel e1 e2 hl
 
+/-- ... and leaves the process-global generator where it was: the state of `random` /
+    `numpy.random` after a seeded call is the state before it (observed by the harness on every
+    call, `global_rng_untouched`). -/
+theorem seeded_apis_leave_global_untouched {σ : Type} (P : Prog σ) (hcov : Covers FactsC17.table P)
+    (e : FnId) (he : e ∈ FactsC17.entries) (fuel : Nat) (e1 e1' : Env σ)
+    (hex : exec P fuel (.call e) e1 = some e1') : Untouched e1 e1' :=
+  clean_leaves_global_untouched P e (cleanAll_sound FactsC17.table P hcov _ seeded_apis_clean e he) fuel e1 e1' hex
+
 /-- The property in its own words: same arguments (`args`) and the same integer seed give the
     same result whatever the global generators `g1 g2` (state of the global RNG / what was called
-    before) and the hash orders `h1 h2` (PYTHONHASHSEED) of the two runs are. -/
+    before), the hash orders `h1 h2` (PYTHONHASHSEED) and the completion orders `w1 w2` of the
+    pool's workers of the two runs are. -/
 theorem same_seed_same_result {σ : Type} (P : Prog σ) (hcov : Covers FactsC17.table P)
     (e : FnId) (he : e ∈ FactsC17.entries) (mk : Nat → Nat → Nat) (args : σ) (seed : Nat)
-    (g1 g2 : Gen) (h1 h2 : Nat) (fuel : Nat) :
-    (exec P fuel (.call e) ⟨args, Gen.ofSeed mk seed, g1, h1⟩).map (·.store) =
-    (exec P fuel (.call e) ⟨args, Gen.ofSeed mk seed, g2, h2⟩).map (·.store) := by
+    (g1 g2 : Gen) (h1 h2 : Nat) (w1 w2 : Gen) (fuel : Nat) :
+    (exec P fuel (.call e) ⟨args, Gen.ofSeed mk seed, g1, h1, w1⟩).map (·.store) =
+    (exec P fuel (.call e) ⟨args, Gen.ofSeed mk seed, g2, h2, w2⟩).map (·.store) := by
   have h := seeded_apis_deterministic P hcov e he fuel
-    ⟨args, Gen.ofSeed mk seed, g1, h1⟩ ⟨args, Gen.ofSeed mk seed, g2, h2⟩ ⟨rfl, rfl⟩
+    ⟨args, Gen.ofSeed mk seed, g1, h1, w1⟩ ⟨args, Gen.ofSeed mk seed, g2, h2, w2⟩ ⟨rfl, rfl⟩
   revert h
-  cases exec P fuel (.call e) ⟨args, Gen.ofSeed mk seed, g1, h1⟩ <;>
-    cases exec P fuel (.call e) ⟨args, Gen.ofSeed mk seed, g2, h2⟩ <;>
+  cases exec P fuel (.call e) ⟨args, Gen.ofSeed mk seed, g1, h1, w1⟩ <;>
+    cases exec P fuel (.call e) ⟨args, Gen.ofSeed mk seed, g2, h2, w2⟩ <;>
     simp only [OptLowEq, LowEq, Option.map] <;> intro h
   · trivial
   · exact h.elim
@@ -87,7 +104,8 @@ def demoProg (src : Src) : Prog S
   | 1 => .draw src (fun v s => (s.1 * 31 + v, s.2))
   | _ => .pure id
 
-def demoTable (g : Bool) : List Facts := [⟨[1], false, false⟩, ⟨[], g, false⟩, ⟨[], false, false⟩]
+def demoTable (g : Bool) : List Facts :=
+  [⟨[1], false, false, false⟩, ⟨[], g, false, false⟩, ⟨[], false, false, false⟩]
 
 theorem demo_covers_seeded : Covers (demoTable false) (demoProg .seeded) := by
   intro f
@@ -102,10 +120,10 @@ example : cleanFrom (demoTable true) 0 = false := by decide
 
 /-- the seeded variant really runs (3 iterations, 3 draws) and ignores the global tape -/
 example :
-    (exec (demoProg .seeded) 20 (.call 0) ⟨(0, 3), ⟨fun i => i + 5, 0⟩, ⟨fun _ => 1, 0⟩, 0⟩).map (·.store)
+    (exec (demoProg .seeded) 20 (.call 0) ⟨(0, 3), ⟨fun i => i + 5, 0⟩, ⟨fun _ => 1, 0⟩, 0, ⟨fun _ => 0, 0⟩⟩).map (·.store)
       = some (5 * 31 * 31 + 6 * 31 + 7, 0) := by decide
 example :
-    (exec (demoProg .seeded) 20 (.call 0) ⟨(0, 3), ⟨fun i => i + 5, 0⟩, ⟨fun _ => 9, 4⟩, 77⟩).map (·.store)
+    (exec (demoProg .seeded) 20 (.call 0) ⟨(0, 3), ⟨fun i => i + 5, 0⟩, ⟨fun _ => 9, 4⟩, 77, ⟨fun _ => 3, 1⟩⟩).map (·.store)
       = some (5 * 31 * 31 + 6 * 31 + 7, 0) := by decide
 
 /-- **Necessity / counter-example.** The pre-repair shape (`get_subtree` drawing from the global
@@ -114,17 +132,26 @@ example :
 theorem global_read_interferes :
     ∃ (e1 e2 : Env S), LowEq e1 e2 ∧
       ¬ OptLowEq (exec (demoProg .global) 20 (.call 0) e1) (exec (demoProg .global) 20 (.call 0) e2) := by
-  refine ⟨⟨(0, 1), ⟨fun _ => 0, 0⟩, ⟨fun _ => 1, 0⟩, 0⟩, ⟨(0, 1), ⟨fun _ => 0, 0⟩, ⟨fun _ => 2, 0⟩, 0⟩,
-    ⟨rfl, rfl⟩, ?_⟩
+  refine ⟨⟨(0, 1), ⟨fun _ => 0, 0⟩, ⟨fun _ => 1, 0⟩, 0, ⟨fun _ => 0, 0⟩⟩,
+    ⟨(0, 1), ⟨fun _ => 0, 0⟩, ⟨fun _ => 2, 0⟩, 0, ⟨fun _ => 0, 0⟩⟩, ⟨rfl, rfl⟩, ?_⟩
   simp [exec, demoProg, Env.read, Gen.next, OptLowEq, LowEq]
 
 /-- the same for the hash order -/
 theorem hash_read_interferes :
     ∃ (e1 e2 : Env S), LowEq e1 e2 ∧
       ¬ OptLowEq (exec (demoProg .hash) 20 (.call 0) e1) (exec (demoProg .hash) 20 (.call 0) e2) := by
-  refine ⟨⟨(0, 1), ⟨fun _ => 0, 0⟩, ⟨fun _ => 0, 0⟩, 1⟩, ⟨(0, 1), ⟨fun _ => 0, 0⟩, ⟨fun _ => 0, 0⟩, 2⟩,
-    ⟨rfl, rfl⟩, ?_⟩
+  refine ⟨⟨(0, 1), ⟨fun _ => 0, 0⟩, ⟨fun _ => 0, 0⟩, 1, ⟨fun _ => 0, 0⟩⟩,
+    ⟨(0, 1), ⟨fun _ => 0, 0⟩, ⟨fun _ => 0, 0⟩, 2, ⟨fun _ => 0, 0⟩⟩, ⟨rfl, rfl⟩, ?_⟩
   simp [exec, demoProg, Env.read, OptLowEq, LowEq]
+
+/-- the same for the completion order of the pool's workers (the shape of seeded change C17-r2-1:
+    the forest gathers with `as_completed`) -/
+theorem sched_read_interferes :
+    ∃ (e1 e2 : Env S), LowEq e1 e2 ∧
+      ¬ OptLowEq (exec (demoProg .sched) 20 (.call 0) e1) (exec (demoProg .sched) 20 (.call 0) e2) := by
+  refine ⟨⟨(0, 1), ⟨fun _ => 0, 0⟩, ⟨fun _ => 0, 0⟩, 0, ⟨fun _ => 1, 0⟩⟩,
+    ⟨(0, 1), ⟨fun _ => 0, 0⟩, ⟨fun _ => 0, 0⟩, 0, ⟨fun _ => 2, 0⟩⟩, ⟨rfl, rfl⟩, ?_⟩
+  simp [exec, demoProg, Env.read, Gen.next, OptLowEq, LowEq]
 
 /-! ## the pre-repair facts (frozen excerpt of the table extracted from /repo at 7b6b8da) -/
 
@@ -132,13 +159,141 @@ theorem hash_read_interferes :
     4 subtree_reconfigure_forest[S] → 1, 5 _reconfigure_tree[U] → 6 subtree_reconfigure[U] → 2, 3;
     7 build_agglom[S] → 8 jitter_dict[S] → 1; 7 → 9 labels_partition[U] → 3 -/
 def prefixSnapshot : List Facts := [
-  ⟨[1, 2], false, false⟩, ⟨[], false, false⟩, ⟨[3], true, false⟩, ⟨[], true, false⟩,
-  ⟨[1, 5], false, false⟩, ⟨[6], false, false⟩, ⟨[2, 3], true, false⟩,
-  ⟨[8, 9], false, false⟩, ⟨[1], false, false⟩, ⟨[3], true, false⟩]
+  ⟨[1, 2], false, false, false⟩, ⟨[], false, false, false⟩, ⟨[3], true, false, false⟩,
+  ⟨[], true, false, false⟩, ⟨[1, 5], false, false, false⟩, ⟨[6], false, false, false⟩,
+  ⟨[2, 3], true, false, false⟩, ⟨[8, 9], false, false, false⟩, ⟨[1], false, false, false⟩,
+  ⟨[3], true, false, false⟩]
 
 theorem prefix_snapshot_counterexample :
     cleanFrom prefixSnapshot 0 = false ∧ cleanFrom prefixSnapshot 4 = false ∧
     cleanFrom prefixSnapshot 7 = false := by decide
+
+/-- a row that consumes pool results in completion order is rejected (seeded change C17-r2-1:
+    `subtree_reconfigure_forest` gathering with `as_completed`) -/
+theorem sched_row_rejected :
+    cleanFrom [⟨[1], false, false, false⟩, ⟨[], false, false, true⟩] 0 = false := by decide
+
+/-! ## data flow of the generator-carrying variables (`Model/RngFlow.lean`) -/
+
+open Cotengra.RFlow in
+/-- **(F)** in every function on a seeded path, every sink (`get_rng(x)`, `f(.., seed=x)`,
+    `{"seed": x}`, `g(.., x, ..)`, `x.randint(..)`, the generator attributes at the end of
+    `__init__`) receives, on every path through the skeleton extracted from /repo on this run, a
+    value derived from the seed -- never `None`, the `random` module or a value drawn from it.
+    Closed kernel evaluation of the verified analysis over `FactsC17Rng.skeletons`. -/
+theorem rng_dataflow_seeded : FactsC17Rng.skeletons.all (fun k => k.2.ok) = true := by decide +kernel
+
+open Cotengra.RFlow in
+/-- hence (soundness of the analysis): no execution of any extracted skeleton, entered with an
+    integer seed (zero or not), performs a bad use -/
+theorem rng_dataflow_no_bad_use :
+    ∀ k ∈ FactsC17Rng.skeletons, ∀ (c : Var → RVal), InG c (initState k.2.nvars k.2.attrs) →
+      ∀ s', Exec k.2.body ⟨c, .run, false⟩ s' → s'.badUse = false := by
+  intro k hk c hc s' hex
+  have h := (List.all_eq_true.1 rng_dataflow_seeded) k hk
+  exact skeleton_ok_sound k.2 h c hc s' hex
+
+namespace AgglomDemo
+open Cotengra.RFlow
+
+/-- the skeleton of `build_agglom` after seeded change C17-r2-2: variable 0 = `seed`, 1 = `rng`;
+    `if random_strength: rng = get_rng(seed) [sink 0]; jitter_dict(.., rng) [sink 1] else: rng = None`
+    then `while ..: self.partition_fn(.., seed=rng) [sink 2]` -/
+def changed : Skeleton := ⟨2, [],
+  .seq (.ite (.seq (.use 0 true (.var 0)) (.seq (.assign 1 (.getRng (.var 0))) (.use 1 true (.var 1))))
+             (.assign 1 .none))
+       (.loop (.use 2 true (.var 1)))⟩
+
+/-- the same function in /repo (the generator is made unconditionally) -/
+def original : Skeleton := ⟨2, [],
+  .seq (.seq (.use 0 true (.var 0)) (.seq (.assign 1 (.getRng (.var 0))) (.use 1 true (.var 1))))
+       (.loop (.use 2 true (.var 1)))⟩
+
+def seedEnv : Var → RVal := fun x => if x = 0 then .goodT else .unbound
+
+end AgglomDemo
+
+open Cotengra.RFlow AgglomDemo in
+/-- **Counter-example shape (seeded change C17-r2-2).**  The analysis reports sink 2 (the `seed=rng`
+    of the partition call) for the changed skeleton and nothing for the original one, and the
+    changed skeleton really has an execution -- the `else` branch, one loop iteration -- in which
+    that sink receives `None`, i.e. the partition function is entered with `seed=None` and
+    `get_rng(None)` is the global `random` module. -/
+theorem agglom_none_counterexample :
+    changed.badSinks = [2] ∧ original.ok = true ∧
+    ∃ s', Exec changed.body ⟨seedEnv, .run, false⟩ s' ∧ s'.badUse = true := by
+  refine ⟨by decide, by decide, ⟨upd seedEnv 1 .none, .run, true⟩, ?_, rfl⟩
+  apply Exec.seqRun _ _ _ ⟨upd seedEnv 1 .none, .run, false⟩
+  · apply Exec.iteR
+    exact Exec.assign ⟨seedEnv, .run, false⟩ 1 .none .none (by simp [evalC])
+  · rfl
+  · apply Exec.loopIter _ _ ⟨upd seedEnv 1 .none, .run, true⟩
+    · have h := Exec.use ⟨upd seedEnv 1 .none, .run, false⟩ 2 true (.var 1) .none
+        (by simp [evalC, upd])
+      simpa [isBadFor] using h
+    · simp
+    · exact Exec.loopExit _ _
+
+/-! ## gathering from an executor pool (`Model/Gather.lean`) -/
+
+open Cotengra.Gather in
+/-- **`parallel=<executor>` is an argument, the speed of its workers is not.**  The forest run
+    with the gather of /repo (`[f.result() for f in forest_futures]`, submission order) ends with
+    the same forest for any two sequences of completion orders of the pool. -/
+theorem forest_gather_deterministic {α : Type} (reconf : α → Nat → α) (score : α → Nat)
+    (keep numTrees : Nat) (forest : List α) (r₁ r₂ : List (List Nat × List Nat))
+    (hseeds : r₁.map (·.1) = r₂.map (·.1))
+    (h₁ : ValidRun reconf score keep numTrees forest r₁) (h₂ : ValidRun reconf score keep numTrees forest r₂) :
+    forestRun .submission reconf score keep numTrees forest r₁ =
+    forestRun .submission reconf score keep numTrees forest r₂ :=
+  forestRun_submission_deterministic reconf score keep numTrees forest r₁ r₂ hseeds h₁ h₂
+
+namespace GatherDemo
+open Cotengra.Gather
+
+/-- trees are (name, score); reconfiguring with sub-seed `sd` gives tree `10 * name + sd` of the
+    same score -- two different, equally good trees -/
+def reconf (t : Nat × Nat) (sd : Nat) : Nat × Nat := (10 * t.1 + sd, t.2)
+
+end GatherDemo
+
+open Cotengra.Gather GatherDemo in
+/-- **Counter-example shape (seeded change C17-r2-1).**  One tree, two saplings with sub-seeds 1
+    and 2, equal scores: gathered in completion order the winner is whichever worker finished
+    first; gathered in submission order it is the same for both pool behaviours.  (Non-vacuity of
+    `forest_gather_deterministic`: both orders are valid and the run really produces two trees.) -/
+theorem completion_order_tie_counterexample :
+    forestRun .completion reconf (·.2) 1 2 [(7, 5)] [([1, 2], [0, 1])] = [(71, 5), (72, 5)] ∧
+    forestRun .completion reconf (·.2) 1 2 [(7, 5)] [([1, 2], [1, 0])] = [(72, 5), (71, 5)] ∧
+    forestRun .submission reconf (·.2) 1 2 [(7, 5)] [([1, 2], [0, 1])] = [(71, 5), (72, 5)] ∧
+    forestRun .submission reconf (·.2) 1 2 [(7, 5)] [([1, 2], [1, 0])] = [(71, 5), (72, 5)] ∧
+    validOrder 2 [0, 1] = true ∧ validOrder 2 [1, 0] = true := by decide
+
+open Cotengra.Gather in
+/-- a completion-order gather is harmless when no two results have the same sort key -/
+theorem completion_order_harmless_without_ties {α : Type} (xs : List α) (score : α → Nat)
+    (π₁ π₂ : List Nat) (h₁ : π₁.Perm (List.range xs.length)) (h₂ : π₂.Perm (List.range xs.length))
+    (hinj : ∀ a b, a ∈ xs → b ∈ xs → score a = score b → a = b) :
+    stableSort score (gather .completion xs π₁) = stableSort score (gather .completion xs π₂) :=
+  completion_gather_distinct_scores xs score π₁ π₂ h₁ h₂ hinj
+
+/-! ## `get_rng` -/
+
+open Cotengra.GetRng in
+/-- with an integer seed or a generator instance the values drawn through `get_rng` do not depend
+    on the process-global generator, and the global generator is left untouched -/
+theorem get_rng_seeded_ignores_global (mk : Nat → Nat → Nat) (arg : SeedArg) (hs : arg.seeded = true)
+    (g1 g2 : Gen) (n : Nat) :
+    (drawsVia mk arg g1 n).map (·.1) = (drawsVia mk arg g2 n).map (·.1) ∧
+    (drawsVia mk arg g1 n).map (·.2.1) = some g1 := by
+  cases arg <;> simp_all [SeedArg.seeded, drawsVia, getRng]
+
+open Cotengra.GetRng in
+/-- `get_rng(None)` and `get_rng(random)` draw from -- and advance -- the global generator -/
+theorem get_rng_none_reads_global (mk : Nat → Nat → Nat) :
+    drawsVia mk .none ⟨fun i => i + 1, 0⟩ 2 ≠ drawsVia mk .none ⟨fun i => i + 2, 0⟩ 2 ∧
+    drawsVia mk .globalMod ⟨fun i => i + 1, 0⟩ 2 ≠ drawsVia mk .globalMod ⟨fun i => i + 2, 0⟩ 2 := by
+  constructor <;> simp [drawsVia, getRng, drawN, Gen.next]
 
 /-! ## hidden mutable state: "regardless of what was called before" on the same object -/
 
